@@ -56,12 +56,26 @@ def misc():
         yield dict(mutex=[0], actors=[[("sleep",), ("lock", 0), ("unlock", 0)], [("lock", 0), ("sleep",), ("unlock", 0)]])
     return g
 
-def family(mod, bound_names):
-    import importlib
+LOCAL_READS = ("cap", "owner")   # unsynchronised reads of kernel state from user code: invisible to the checker, outside its model
+
+def family(mod, bound_names, strip_local=True):
+    import importlib, json
     m = importlib.import_module(mod)
     class Q: quick = False
     table = dict(m.bounds(Q))
-    return chain(*[table[b] for b in bound_names])
+    inner = chain(*[table[b] for b in bound_names])
+    if not strip_local:
+        return inner
+    def g():
+        seen = set()
+        for p in inner():
+            q = dict(p)
+            q["actors"] = [a for a in ([op for op in a if op[0] not in LOCAL_READS] for a in p["actors"]) if a]
+            k = json.dumps(q, sort_keys=True)
+            if len(q["actors"]) >= 2 and k not in seen:
+                seen.add(k)
+                yield q
+    return g
 
 
 FAMILY = {"lock": "mutex", "trylock": "mutex", "unlock": "mutex", "acq": "sem", "acqt": "sem", "rel": "sem", "cap": "sem", "cwait": "condvar", "cwaitfor": "condvar-timed",
